@@ -68,6 +68,7 @@ type cfg struct {
 	Late       int  // entries logged concurrently with the flush (not required to appear)
 	Raw        bool // WriteLog (exact bytes) instead of Infof
 	TwoWriters bool // second logger object with its own writer
+	Switch     bool // logger a's writer is replaced after the pre entries, while they may still be queued
 	QueueCap   int  // capacity of the log queue (0: the package's 10000)
 	Slow       bool // slow writer (see recWriter)
 	Big        bool // the first entry of every logging goroutine is 5000 bytes long (formatted path only)
@@ -102,6 +103,9 @@ func (c cfg) name() string {
 	if c.SlowMs > 0 {
 		return fmt.Sprintf("rogger G=%d E=%d pre=%d raw=%v cap=%d writer takes %dms, start %dms into a second, cached clock running", c.G, c.E, c.Pre, c.Raw, c.QueueCap, c.SlowMs, c.StartMs)
 	}
+	if c.Switch {
+		return fmt.Sprintf("rogger writer replaced after pre=%d entries, then G=%d E=%d raw=%v cap=%d slow=%v", c.Pre, c.G, c.E, c.Raw, c.QueueCap, c.Slow)
+	}
 	return fmt.Sprintf("rogger G=%d E=%d pre=%d late=%d raw=%v two=%v cap=%d slow=%v big=%v", c.G, c.E, c.Pre, c.Late, c.Raw, c.TwoWriters, c.QueueCap, c.Slow, c.Big)
 }
 
@@ -109,7 +113,7 @@ func scenario(c cfg) *vm.Scenario {
 	var w1, w2 *recWriter
 	var required []string // messages whose logging call returned before FlushLogger was called
 	var flushStart, flushEnd int64
-	var snapshot []string
+	var snapshot, snapshot1 []string
 	// panic scenarios: executions are serialised, so a plain counter orders "logging call returned"
 	// and "a goroutine panicked" (nothing can run between panic() and the recover in CheckPanic)
 	var seq, firstPanic int
@@ -122,7 +126,7 @@ func scenario(c cfg) *vm.Scenario {
 	sc.Reset = func() {
 		w1, w2 = &recWriter{prefix: !c.Raw, slow: c.Slow, slowMs: c.SlowMs}, &recWriter{prefix: !c.Raw, slow: c.Slow, slowMs: c.SlowMs}
 		required = nil
-		snapshot = nil
+		snapshot, snapshot1 = nil, nil
 		seq, firstPanic, logged = 0, 0, nil
 	}
 	sc.Main = func() {
@@ -157,6 +161,9 @@ func scenario(c cfg) *vm.Scenario {
 			m := fmt.Sprintf("<pre-%d>", i)
 			emit(lg, m)
 			required = append(required, m)
+		}
+		if c.Switch {
+			lg.SetWriter(w2) // what GetLogger/GetDayLogger/... do on first use; the entries above were logged for w1
 		}
 		done := make(chan struct{}, c.G)
 		for g := 0; g < c.G; g++ {
@@ -253,6 +260,7 @@ func scenario(c cfg) *vm.Scenario {
 		rogger.FlushLogger()
 		flushEnd = vm.Now()
 		vm.Log("flush-end")
+		snapshot1 = append([]string{}, w1.recs...)
 		snapshot = append(append([]string{}, w1.recs...), w2.recs...)
 	}
 	sc.Check = func(r *vm.Result) string {
@@ -326,6 +334,26 @@ func scenario(c cfg) *vm.Scenario {
 			if lost > 0 {
 				msgs = append(msgs, "entry-logged-before-flush-not-written")
 			}
+			if (c.Switch || c.TwoWriters) && !c.Graceful {
+				// each entry belongs to the writer its logger had when the logging call was made
+				for _, m := range required {
+					own1 := strings.HasPrefix(m, "<pre-")
+					if c.TwoWriters {
+						var g, e int
+						if n, _ := fmt.Sscanf(m, "<g%d-e%d>", &g, &e); n == 2 {
+							own1 = g%2 == 0
+						}
+					}
+					in1 := false
+					for _, rec := range snapshot1 {
+						in1 = in1 || strings.Contains(rec, m)
+					}
+					if in1 != own1 {
+						msgs = append(msgs, "entry-handed-to-a-writer-other-than-its-own\n"+m)
+						break
+					}
+				}
+			}
 			if dup > 0 {
 				msgs = append(msgs, "entry-written-more-than-once")
 			}
@@ -382,6 +410,8 @@ func main() {
 		add(cfg{G: 2, E: 1, Pre: 1, Raw: raw}, -1, b)
 		add(cfg{G: 2, E: 2, Raw: raw}, -1, b)
 		add(cfg{G: 2, E: 1, TwoWriters: true, Raw: raw}, -1, b)
+		add(cfg{G: 1, E: 2, Pre: 3, Switch: true, Raw: raw}, -1, b)
+		add(cfg{G: 1, E: 1, Pre: 4, Switch: true, Raw: raw, Slow: true, QueueCap: 2}, -1, b)
 		add(cfg{G: 1, E: 1, Late: 1, Raw: raw}, -1, b)
 		// a tiny queue: loggers block on a full queue
 		add(cfg{G: 1, E: 3, Raw: raw, QueueCap: 1}, -1, b)
